@@ -94,6 +94,7 @@ func main() {
 	known := flag.String("known", "/verif/KNOWN_FINDINGS.jsonl", "known findings file")
 	noCorpus := flag.Bool("nocorpus", false, "skip the corpus")
 	flag.Parse()
+	hx.ViewAudit = *prop == "C11" || os.Getenv("HX_VIEWS") != ""
 	start := time.Now()
 
 	if *replay != "" {
